@@ -12,6 +12,11 @@ CONTRACTS = {
         ensures=["result is dConfig"],
         trusted="stub: merging of file_list entries (glob expansion, per-file dictionaries) is not modelled; process_config_file is verified for configuration files without a file_list section",
     ),
+}
+
+# NOT LOADED (work in progress): 68 of 72 obligations discharge; the four open ones are the dictionary-shape invariant on the
+# KeyError path of the inner loop (quantified key-set axioms time out).  Nothing is claimed from it.
+PENDING = {
     "vsg.config.process_config_file": dict(
         types={"dConfiguration": "obj:builtins.dict", "tempConfiguration": "obj:builtins.dict", "sConfigFilename": "str"},
         requires=[
